@@ -71,7 +71,7 @@ class BV:
         theirs = self.reach_from(others, avoid=[switch_bi]) if others else set()
         return self.reach0 - (theirs - mine)
 
-    def decision_paths(self, start, local, limit=256):
+    def decision_paths(self, start, local, limit=256, stop=(), within=None):
         """Enumerate acyclic paths from block `start` to a return; for each, the list of branch
         conditions taken [(switch block, label)] and the last definition (block, stmt/term) of
         `local` on the path.  Used to read small boolean/aggregate-valued match arms exactly."""
@@ -99,6 +99,13 @@ class BV:
                 return
             ss = self.succ[bi]
             for b in ss:
+                if b in stop:
+                    # a path that closes (e.g. back at the loop header): recorded like a return
+                    c2 = conds + [(bi, tuple(self.edge_label.get((bi, b), [])))] if len(ss) > 1 else conds
+                    out.append((list(c2), cur))
+                    continue
+                if within is not None and b not in within:
+                    continue
                 if b in seen:
                     continue
                 c2 = conds
